@@ -133,7 +133,15 @@ func NewWriter(dir string, shards int) *Writer {
 
 type Rec map[string]any
 
+// Only restricts the trace to one session (replay of a recorded failure); 0 = everything.
+var Only int
+
 func (w *Writer) Emit(shard int, r Rec) {
+	if Only != 0 {
+		if s, ok := r["sess"].(int); !ok || s != Only {
+			return
+		}
+	}
 	b, err := json.Marshal(r)
 	if err != nil {
 		fatal("marshal: %v", err)
@@ -173,6 +181,9 @@ func main() {
 	}
 	if p.Shards == 0 {
 		p.Shards = 16
+	}
+	if o, ok := p.Extra["only"].(float64); ok {
+		Only = int(o)
 	}
 	drv, ok := drivers[p.Driver]
 	if !ok {
